@@ -270,3 +270,36 @@ CHECKS['C09'] = {
 
 NOT_APPLICABLE = {
 }
+
+# ---- round 9 additions: rules decided by witness evaluation (cva/precond.py); texts appended so that the claims stay next to the rules
+_R9_ENGINE = ('witness evaluation over MIR (can-return relation on CFG + call graph; branch conditions and returned terms evaluated for exact '
+              'witness inputs, frame by frame, nothing executed)')
+_R9 = {
+    'C01': ' Route-choosing predicates inside the slice solvers are part of the scale-consistency scan (no absolute threshold decides a route).',
+    'C02': ' total: no evaluation point on which a pdf/pmf/ln_pdf cannot return (callee preconditions included), refuted on exact witnesses; '
+           'the textbook grid includes shape = 1 and boundary points (0 or the formula\'s limit accepted at an edge whose membership differs between sources).',
+    'C03': ' total: constructors accept every valid parameter setting (equal bounds, p in {0,1}) and sample() can return for every object its constructor admits; '
+           'support-witness: the expression Uniform::sample returns stays in [lower, upper] in IEEE arithmetic for u in [0,1), degenerate bounds included; '
+           'literal-coherent: struct literals outside constructors carry derived fields of their own parameters.',
+    'C05': ' dot-shape: on all conformable shape witnesses 1..3 the return site taken yields a matrix of the shape the definition gives (shortcuts for special operands included).',
+    'C06': ' dispersion-table: has_dispersion per family variant read under the discriminant (one-parameter laws false); setters store their argument itself; '
+           'value filters on the way keep every finite observation.',
+    'C07': ' total: trapz, romberg and quad5 can return for every interval (a < b, a > b, a = b) with at least one panel.',
+    'C08': ' first-occurrence follows delegation to helpers and std min_by/max_by (last maximum); merge: a routine joining two (count, mean, M2) aggregates is '
+           'evaluated on exact partitions of equal and unequal size; value filters keep every finite observation.',
+    'C09': ' self-call-identity: every branch that reduces through gamma / ln_gamma itself equals the true function at exact witnesses of its own conditions.',
+    'C12': ' compatible-returns: every compatible (matrix, vector-as-row) shape witness 1..3 can return through promotion, fast paths and dispatch.',
+    'C13': ' Value filters on the way from fit / acf keep every finite observation.',
+    'C14': ' data-filter: a value filter on the way from fit keeps every finite observation (is_normal drops 0.0).',
+    'C15': ' grid: count and elements of arange / linspace evaluated on exact dyadic witnesses over the element abstraction (positions, branch-assigned locals with their conditions, wrappers).',
+    'C16': ' last-knot: a bracket index counted over the whole table (partition_point, also in a helper) must not be tested against n to mean "above"; '
+           'the sortedness check is also read as zipped views with their lengths.',
+    'C17': ' rejects: logit cannot certainly return for arguments outside [0,1] (through helpers and shadowed copies); total on the stated domains of logit, logistic and Box-Cox.',
+    'C18': ' literal-coherent: struct literals of a distribution outside its constructor carry derived fields of their own parameters.',
+    'C19': ' total: every resampler can return for every non-empty input (a one-point data set included).',
+}
+for _k, _t in _R9.items():
+    if _k in CHECKS:
+        CHECKS[_k]['text'] = CHECKS[_k]['text'].rstrip() + _t
+        if _k not in ('C01', 'C13', 'C18') and 'witness evaluation' not in CHECKS[_k]['technique']:
+            CHECKS[_k]['technique'] = CHECKS[_k]['technique'] + ' + ' + _R9_ENGINE
